@@ -828,3 +828,33 @@ Proof.
   destruct HA as (C1 & C2 & C3 & C4 & C5 & C6 & C7). cbn in *. exists cr. repeat split; try assumption.
   specialize (C7 eq_refl). lia.
 Qed.
+
+(* the header reported does not depend on the mode: DecodeHeader, DecodeHeaderAndFileID, CheckIntegrity and Decode
+   report the same header (and fail alike in the header stage) on the same bytes *)
+Lemma decode_a_hdr o md g data t a : decode_a o md g data t = TDone a ->
+  ar_hdr a = snd (fst (fst (hdr_a data t))) /\
+  (forall e, fst (fst (fst (hdr_a data t))) = Some e -> ar_err a = Some e).
+Proof.
+  unfold decode_a. destruct (hdr_a data t) as [[[e h] crc] used]. cbn [fst snd].
+  destruct e as [e|]; [intros H; inversion H; subst; fields; split; [reflexivity|intros e' E; congruence]|].
+  destruct md; try (destruct (run_a _ _ _); try discriminate; cbv zeta; try destruct (negb _); try discriminate);
+    try (destruct (cp_err _ _ _));
+    intros H; inversion H; subst; fields; (split; [reflexivity|discriminate]).
+Qed.
+
+Theorem header_agree o1 o2 md1 md2 g1 g2 rd1 rd2 fuel1 fuel2 r1 r2 : wf rd1 fuel1 -> wf rd2 fuel2 ->
+  rd_data rd1 = rd_data rd2 -> rd_term rd1 = rd_term rd2 ->
+  decode o1 md1 g1 rd1 fuel1 = TDone r1 -> decode o2 md2 g2 rd2 fuel2 = TDone r2 ->
+  dr_hdr r1 = dr_hdr r2.
+Proof.
+  intros W1 W2 Hd Ht D1 D2.
+  pose proof (decode_abs o1 md1 g1 rd1 fuel1 W1) as A1. pose proof (decode_abs o2 md2 g2 rd2 fuel2 W2) as A2.
+  rewrite D1 in A1. rewrite D2 in A2. rewrite Hd, Ht in A1.
+  destruct (decode_a o1 md1 g1 (rd_data rd2) (rd_term rd2)) as [a1|w|] eqn:E1; try contradiction.
+  destruct (decode_a o2 md2 g2 (rd_data rd2) (rd_term rd2)) as [a2|w|] eqn:E2; try contradiction.
+  destruct A1 as (_ & M2 & _). destruct A2 as (_ & N2 & _).
+  destruct (decode_a_hdr _ _ _ _ _ _ E1) as [H1 _]. destruct (decode_a_hdr _ _ _ _ _ _ E2) as [H2 _]. congruence.
+Qed.
+
+(* a tiny concrete file: a 12-byte header announcing no data, followed by its checksum *)
+Definition tiny_file : list N := [12; 16; 100; 0; 0; 0; 0; 0; 46; 70; 73; 84]%N.
